@@ -6,11 +6,11 @@ COROUTINE = ("asyncio", "trio")
 FLAVOURS = ("asyncio", "trio", "threading")
 
 EXC_KINDS = ["LookupError", "ValueError", "KeyError", "CustomWithArgs", "StopAsyncIteration", "TimeoutError", "OSError",
-             "AssertionError", "RuntimeError", "ExceptionGroup", "InvalidStateError", "FuturesCancelledError", "Unprintable"]
+             "AssertionError", "RuntimeError", "ExceptionGroup", "InvalidStateError", "FuturesCancelledError", "Unprintable", "EmptyErrors"]
 THREAD_ONLY_EXC = ["StopIteration", "AsyncioCancelledErrorAsException"]
 BASE_KINDS = ["SystemExit", "SystemExitZero", "SystemExitNone", "GeneratorExit", "CustomBase"]
 RETURN_KINDS = ["zero", "zerofloat", "false", "emptystr", "emptylist", "emptytuple", "emptybytes", "emptydict", "str", "one",
-                "object", "dict", "true", "awaitable", "generator"]
+                "object", "dict", "true", "awaitable", "generator", "exception_instance", "kbint_instance", "cancelled_instance", "stopiteration_instance"]
 
 
 def bystander(rnd, pid, flavour=None, when=None):
